@@ -296,6 +296,45 @@ def drive(rec, rng, case):
                 break
 
 
+def shared_rates(rec, case, chart=None) -> None:
+    """one parsed chart asked for rates by four threads at once (tick bounds in different tempo segments, time bounds, failing
+    questions): every answer is the one the chart gives when asked alone - which the contract has judged against the definition"""
+    if chart is None:
+        out = harness.parse(case["text"])
+        if not out.ok:
+            return
+        chart = out.chart
+    I, D = harness.Instrument, harness.Difficulty
+    calls = []
+    be = chart.sync_track.bpm_events
+    tt = [e.tick for e in be]
+    for key in sorted(case["truth"]["tracks"]):
+        inst, diff = key.split("/")
+        tr = chart.instrument_tracks.get(I[inst], {}).get(D[diff])
+        if tr is None:
+            continue
+        ticks = [n.tick for n in tr.note_events] or [0]
+        pts = sorted(set([0, ticks[0], ticks[len(ticks) // 2], ticks[-1], ticks[-1] + 7] + tt[:3] + tt[-2:]))
+        i_, d_ = I[inst], D[diff]
+        calls.append(lambda i_=i_, d_=d_: chart.notes_per_second(i_, d_))
+        for a in pts:
+            calls.append(lambda i_=i_, d_=d_, a=a: chart.notes_per_second(i_, d_, a))
+            for b in pts[::2]:
+                calls.append(lambda i_=i_, d_=d_, a=a, b=b: chart.notes_per_second(i_, d_, a, b))
+        calls.append(lambda i_=i_, d_=d_: chart.notes_per_second(i_, d_, timedelta(0), timedelta(seconds=2)))
+        calls.append(lambda i_=i_, d_=d_: chart.notes_per_second(i_, d_, timedelta(microseconds=1)))
+    calls.append(lambda: chart.notes_per_second(I.KEYS, D.EASY))
+    calls = calls[:120]
+    rec.ev(len(calls))
+    bad = harness.shared_use(rec, calls, len(case["text"]), rounds=3, plain_rounds=10)
+    if bad:
+        rec.violation("value", "one chart asked for notes_per_second by 4 threads at once: " + bad, {"text": case["text"], "truth": case["truth"], "shared": True,
+                                                                                                      "instrument": "?", "difficulty": "?", "args": []},
+                      "rate-differs-when-chart-is-shared-by-threads")
+    else:
+        rec.cls("chart_shared_by_4_threads_for_rate_queries")
+
+
 def run_shard(shard, rec, tier, seed):
     harness.setup()
     install()
@@ -323,6 +362,8 @@ def run_shard(shard, rec, tier, seed):
                 case = dict(case, text=gen.render_sections(secs), sections=[[n, b] for n, b in secs])
                 rec.cls("note_lines_not_in_tick_order")
         drive(rec, rng, case)
+        if i % 4 == 1 and not rec.violations and case["truth"]["tracks"]:
+            shared_rates(rec, case)
         if i < 1:
             rec.sample({"tracks": sorted(case["truth"]["tracks"]), "text_head": case["text"][:200]})
         if rec.full:
@@ -337,6 +378,12 @@ def replay(case, rec):
     harness.setup()
     install()
     make_distractor()
+    if case.get("shared"):
+        for _ in range(6):
+            shared_rates(rec, case)
+            if rec.violations:
+                break
+        return
     out = harness.parse(case["text"])
     if not out.ok:
         return
